@@ -106,6 +106,8 @@ def check(run):
         pairs = coll + [p for p in pairs if not ref_collides(*p)][:max(0, pl['corpus_pairs'] - len(coll))]
     for a, b in pairs:
         sets.append({'decls': [a, b], 'attrs': []})
+    for d in CORPUS_DECLS + SUFFIX_DECLS:
+        sets.append({'decls': [d, d], 'attrs': []})        # the same header on two handlers
     for d in CORPUS_DECLS:
         for attrs in (['ErrorCommands'], ['StandardCommands'], ['ErrorCommands', 'StandardCommands']):
             sets.append({'decls': [d], 'attrs': attrs})
